@@ -64,6 +64,12 @@ NormAcc(acc, rest) ==
             ELSE NormAcc(Append(acc, x), Tail(rest))
 Normalise(ls) == NormAcc(<<>>, ls)
 
+\* layer sequences modulo Normalise form a group under concatenation: the inverse undoes the layers last to first
+CNeg(a) == <<-a[1], -a[2]>>
+Inverse(ls) == [k \in 1..Len(ls) |-> Lay(ls[Len(ls) + 1 - k].d, CNeg(ls[Len(ls) + 1 - k].c))]
+\* the (normalised) X with  known \o X = whole  as products
+LeftDivide(known, whole) == Normalise(Inverse(known) \o whole)
+
 RECURSIVE SumClass(_, _)
 SumClass(ls, d) ==
   IF ls = <<>> THEN CZero
